@@ -591,9 +591,11 @@ fn c16_construct_at<A: Subject>(run: &Run, reserved: u32, cap: u32, unify: bool,
   cfg.min_seg = 13;
   let prefix = cfg.data_offset() as u32;
   let path = if backend == Backend::File { Some(fresh_path("c16")) } else { None };
+  let case = json!({"engine": "c16", "tag": "C16", "flavour": A::FLAVOUR, "cfg": cfg});
+  // constructing (mapping, sizing the file, writing the header) is subject code: a signal here belongs to this case
+  crate::crashguard::set_case(crate::crashguard::head_of(&case));
   let r = build::<A>(&cfg, path.as_ref());
   run.eval(1);
-  let case = json!({"engine": "c16", "flavour": A::FLAVOUR, "cfg": cfg});
   let o = cfg.options();
   let want_dof = if cfg.unified() { o.data_offset_unify::<A>() } else { o.data_offset::<A>() };
   if want_dof != prefix as usize {
@@ -670,6 +672,7 @@ fn c16_construct_at<A: Subject>(run: &Run, reserved: u32, cap: u32, unify: bool,
     }
   }
   run.states.insert(hash_of(&(reserved, cap, unify, backend as u8, A::SYNC)));
+  crate::crashguard::clear_case();
   if let Some(p) = path {
     let _ = std::fs::remove_file(p);
   }
